@@ -221,6 +221,7 @@ let net_cmd cmd line =
             | _ -> ())
          end
      | "poll" when who >= 0 -> (match !mst with Up p -> let (p', _) = pu_request p (zi (saddr who)) false in mst := Up p' | _ -> ())
+     | "flush" when who >= 0 -> let s = !nsl.(who) in s.sq1 <- cq_flush s.sq1; s.sq2 <- cq_flush s.sq2
      | "mtest" when who >= 0 ->
          (match !mst with
           | Up p -> mst := Up (pu_test p (zi (saddr who)))
